@@ -643,6 +643,13 @@ func (sc *Scope) call(x *SExpr) Val {
 	case "wasAllocated":
 		a := arg(0)
 		return boolVal(Sel(sc.oldAlloc(), a.Leaves[0]))
+	case "allocSet":
+		// allocSet(): the set of currently allocated references as an array value (for a ghost snapshot: "objects that
+		// existed when X was entered"); old(allocSet()) is the set at function entry
+		if sc.inOld {
+			return Val{Typ: nil, Leaves: []*Term{sc.oldAlloc()}}
+		}
+		return Val{Typ: nil, Leaves: []*Term{vc.allocArr(sc.state())}}
 	case "abs":
 		a := arg(0)
 		if isFloat(a.Typ) {
